@@ -143,6 +143,15 @@ VARIANTS = {
     pub fn set_third(&mut self, card_number: CKCNumber) {""")], ["C01", "C05", "C06"]),
     # uniqueness by looking for each card among the later ones (on a clone of the iterator)
     "unique_by_any_on_clone": ([sub("src/cards/seven.rs", "        let sorted = self.sort();\n        let mut last: CKCNumber = u32::MAX;\n        for c in sorted.iter() {\n            if *c >= last {\n                return false;\n            }\n            last = *c;\n        }\n        true", "        let mut rest = self.iter();\n        while let Some(card) = rest.next() {\n            if rest.clone().any(|c| c == card) {\n                return false;\n            }\n        }\n        true")], ["C04", "C05"]),
+    # defensive assertions whose truth needs a little reasoning (bounds, path conditions, table cells, float ranges)
+    "defensive_asserts": ([
+        sub("src/cards/five.rs", "    pub fn multiply_primes(&self) -> usize {\n", "    pub fn multiply_primes(&self) -> usize {\n        debug_assert!(self.first().get_rank_prime() <= 63, \"six bits\");\n"),
+        sub("src/cards/five.rs", "            return crate::hand_rank::NO_HAND_RANK_VALUE;\n        }\n        self.hand_rank_value()\n    }\n}", "            return crate::hand_rank::NO_HAND_RANK_VALUE;\n        }\n        debug_assert!(self.is_valid());\n        self.hand_rank_value()\n    }\n}"),
+        sub("src/cards/six.rs", "                best_hrv = hrv;\n                best_hand = hand;", "                debug_assert!(hrv != 0 || best_hrv == 0);\n                best_hrv = hrv;\n                best_hand = hand;"),
+        sub("src/hand_rank.rs", "    fn from(value: HandRankValue) -> Self {\n        HandRank {", "    fn from(value: HandRankValue) -> Self {\n        debug_assert!(value > 7462 || value == 0 || HandRank::determine_name(&value) != HandRankName::Invalid);\n        HandRank {"),
+        sub("src/cards/two.rs", "        points.ceil() as i8", "        debug_assert!((-1.5..=20.0).contains(&points), \"chen range\");\n        points.ceil() as i8"),
+        sub("src/cards/binary_card.rs", "            if *self & bc == bc {\n                *self ^= bc;", "            if *self & bc == bc {\n                debug_assert!(bc.is_power_of_two());\n                *self ^= bc;"),
+    ], ["C01", "C02", "C04", "C05", "C06", "C07", "C15", "C16", "C17"]),
     # assertions that hold on every input
     "true_assertions": ([sub("src/lib.rs", "    fn get_rank_prime(&self) -> u32 {\n        self.as_u32()", "    fn get_rank_prime(&self) -> u32 {\n        debug_assert!(CardNumber::RANK_PRIME_FILTER == 0b00111111);\n        self.as_u32()"),
                          sub("src/deck.rs", "        if index < Deck::len() {\n            POKER_DECK.0[index]", "        if index < Deck::len() {\n            debug_assert!(index < 52);\n            POKER_DECK.0[index]"),
